@@ -204,6 +204,23 @@ def classify_crash(stderr, curtext, returncode, phase):
     return "abnormal-exit:%d@%s" % (returncode, phase)
 
 
+def memcheck_keys(stderr):
+    """dedupe valgrind memcheck errors by kind and first library frame"""
+    keys = {}
+    for m in re.finditer(r"==\d+== (Conditional jump or move depends on uninitialised value\(s\)|Use of uninitialised value of size \d+|"
+                         r"Invalid (?:read|write) of size \d+|Invalid free\(\) / delete / delete\[\] / realloc\(\)|Mismatched free\(\) / delete / delete \[\]|"
+                         r"Syscall param \S+ points to uninitialised byte\(s\)|Source and destination overlap in \w+.*)\n((?:==\d+==    (?:at|by) .*\n)+)", stderr):
+        kind = re.sub(r"\d+", "N", m.group(1)).replace(" ", "-")
+        fn = None
+        for fm in re.finditer(r"(?:at|by) 0x[0-9A-F]+: (.+?) \((\S+?):(\d+)\)", m.group(2)):
+            if fm.group(2).startswith("st_"):
+                fn = re.sub(r"\(.*$", "", fm.group(1))
+                fn = re.sub(r"<.*>", "<>", fn)
+                break
+        keys.setdefault("memcheck:%s@%s" % (kind, fn or "harness"), m.group(0)[:3000])
+    return keys
+
+
 def tsan_keys(stderr):
     """dedupe ThreadSanitizer reports by their first library frames"""
     keys = {}
@@ -335,7 +352,7 @@ def run_pool(binp, build_name, prop, tier, seed, nworkers, rundir, dbits, extra_
                 continue
             w = j["w"]
             stderr = _read(j["err"])
-            if (rc == 0 or (rc == 66 and build_name == "tsan")) and os.path.exists(os.path.join(rundir, "w%d.json" % w)):
+            if (rc == 0 or (rc == 66 and build_name == "tsan") or (rc == 99 and wrapper)) and os.path.exists(os.path.join(rundir, "w%d.json" % w)):
                 try:
                     rep = json.load(open(os.path.join(rundir, "w%d.json" % w)))
                 except ValueError as e:
@@ -343,6 +360,14 @@ def run_pool(binp, build_name, prop, tier, seed, nworkers, rundir, dbits, extra_
                 if build_name == "tsan" and "ThreadSanitizer" in stderr:
                     for k, blk in tsan_keys(stderr).items():
                         add_violation(k, "threads", rep.get("worker", w), "ThreadSanitizer report", blk)
+                if wrapper and rc == 99:
+                    mk = memcheck_keys(stderr)
+                    if not mk:
+                        mk = {"memcheck:unclassified@harness": stderr[-3000:]}
+                    for k, blk in mk.items():
+                        if k.endswith("@harness"):
+                            raise HarnessFailure("memcheck error outside the library headers:\n" + blk)
+                        add_violation(k, "memcheck", rep.get("worker", w), "valgrind memcheck report (plain build)", blk)
                 res.reports.append(rep)
                 os.rename(os.path.join(rundir, "w%d.json" % w), os.path.join(rundir, "w%d.done.%d.json" % (w, j["attempt"])))
                 continue
